@@ -37,7 +37,9 @@ def strategy(tier):
         'bundle': st.one_of(strat.bundles(), strat.bundles(extended_eid=True, max_ext=1)),
         'mode': st.sampled_from(['ref', 'repo', 'repo-obj']),
         # how times are given to the encoding classes in the repo modes (DtnTimeField converts datetime objects and text)
-        'timeform': st.sampled_from(['int', 'datetime', 'text']),
+        # ('reassign': every time of the decoded bundle is read through the attribute interface and written back unchanged
+        # before it is encoded again)
+        'timeform': st.sampled_from(['int', 'datetime', 'text', 'datetime-zone', 'text-zone', 'reassign']),
     })
 
 
@@ -47,6 +49,8 @@ def pinned_cases():
             'blocks': [dict(type=10, num=2, flags=1, crc_type=1, data=ref9171.btsd_hop_count(24, 3)),
                        dict(type=1, num=1, flags=0, crc_type=2, data='00' * 24)]}
     yield 'basic-ref', {'bundle': base, 'mode': 'ref'}
+    zero = dict(base, primary=dict(base['primary'], ts=[0, 17]))
+    yield 'time-zero-read-and-written-back', {'bundle': zero, 'mode': 'ref', 'timeform': 'reassign'}
     yield 'basic-repo', {'bundle': base, 'mode': 'repo-obj'}
 
 
@@ -69,6 +73,25 @@ def _diff(expect, got):
                 if eb[key] != gb.get(key):
                     out.append('blocks[%d].%s: expected %r got %r' % (idx, key, str(eb[key])[:60], str(gb.get(key))[:60]))
     return out
+
+
+def _reassign_times(obj):
+    ''' Read every time value of a decoded bundle the way a user of the classes does (attribute access) and write the
+    same value back: nothing has changed, so the encoding must not change either. '''
+    from bp.encoding import StatusReport
+    ts = obj.primary.create_ts
+    ts.dtntime = ts.dtntime
+    for blk in obj.blocks:
+        rep = blk.getlayer(StatusReport) if hasattr(blk, 'getlayer') else None
+        if rep is None:
+            continue
+        # (the octets of the block are kept by the decoder; they are dropped so that the objects are encoded)
+        if rep.subj_ts is not None:
+            rep.subj_ts.dtntime = rep.subj_ts.dtntime
+        for name in ('received', 'forwarded', 'delivered', 'deleted'):
+            info = getattr(rep.status, name, None) if rep.status is not None else None
+            if info is not None and info.at is not None:
+                info.at = info.at
 
 
 def execute(case):
@@ -108,6 +131,9 @@ def execute(case):
         diffs = _diff(expect, got)
         if diffs:
             out.fail('decode-fields-differ' + sfx, 'decoded field values differ: ' + '; '.join(diffs[:3]))
+        if case.get('timeform') == 'reassign':
+            _reassign_times(obj)
+            out.label('timeform:reassign')
         try:
             again = bytes(obj)
         except Exception as err:
